@@ -279,7 +279,7 @@ def run_doc(ctx: Ctx, mon: Mon, ldr, doc: dict, desc: dict, nontrivial: bool, fe
 
 def graph_cases(ctx: Ctx, nset: int, idx_in_set: int):
     """Yield (desc, doc, nontrivial, feats) for this worker (idx_in_set of nset workers share one setting)."""
-    schemes = ["plain", "prefix"] if ctx.quick else ["plain", "prefix", "propcase"]
+    schemes = ["plain", "prefix", "itemish"] if ctx.quick else ["plain", "prefix", "propcase", "itemish"]
     i = 0
     for edges in graphgen.all_graphs(2):
         for order in itertools.permutations(range(2)):
@@ -301,7 +301,7 @@ def graph_cases(ctx: Ctx, nset: int, idx_in_set: int):
             edges = graphgen.random_graph(ctx.rng, n, ctx.rng.choice([0.15, 0.3, 0.5]))
             order = list(range(n))
             ctx.rng.shuffle(order)
-            yield _mk(n, edges, tuple(order), ctx.rng.choice(["plain", "prefix", "propcase"]), ctx.rng.random() < 0.3)
+            yield _mk(n, edges, tuple(order), ctx.rng.choice(["plain", "prefix", "propcase", "itemish"]), ctx.rng.random() < 0.3)
 
 
 def _mk(n, edges, order, scheme, v31):
